@@ -9,7 +9,7 @@ from ..terms import A, C, F, V, call, conj, show_program, show_term, term_vars, 
 
 ID = 'C07'
 LEVEL = 'model_checking'
-RULE = ('every history (operation sequence) of depth d over the event alphabet {asserta/assertz of p(a) p(b) p(X) '
+RULE = ('(m) matching = unification: for every ordered pair (t1,t2) of the term universe of C02 (depth <=1 incl. zero-argument compounds, list-shaped terms, odd Python constants) the store {m(t1)} is asked m(t2) and retract(m(t2)): one answer with the bindings of the unifier iff the terms unify. (h) every history (operation sequence) of depth d over the event alphabet {asserta/assertz of p(a) p(b) p(X) '
         'p(f(Y)) q(a,b) flag; retract of p(a) p(X) p(f(X)) q(X,Y) flag nosuch(X), retract(p(X)) run to exhaustion / '
         'abandoned after the 1st / after the 2nd answer; retractall of p(a) p(_) flag nosuch(_); facts of a predicate named like an API function (variable/1) and a zero-argument fact held twice and retracted once; patterns with a repeated variable q(X,X) and partially bound q(X,a) over q/2 facts; clear}, from 4 initial '
         'stores, in 3 dress-ups (Python API - for histories with a clear also with the Atom objects of the caller created once and held across the clear, and (full alphabet) with the query objects of the whole history constructed first and evaluated later, which must change nothing; compiled clauses; compiled clauses receiving the goal in a variable bound '
@@ -317,6 +317,88 @@ def describe(dress, init, trace):
     return 'dress-up: %s\ninitial store: %s\nhistory: %s\n' % (dress, [show_term(t) for t in init], ' ; '.join(trace))
 
 
+# ---------------------------------------------------------------- matching = unification
+# "a query enumerates the MATCHING facts, retract removes the first MATCHING fact": for every
+# ordered pair (t1, t2) of C02's term universe, a store holding the single fact m(t1) is asked
+# m(t2), retract(m(t2)) and retractall(m(t2)); the fact matches iff the terms unify (after renaming
+# the fact's variables apart), and the bindings of t2's variables are those of the unifier.
+def match_universe():
+    from . import c02
+    return [t for t in c02.universe('quick')]
+
+
+def rename_apart(t):
+    if t[0] == 'v':
+        return ('v', ('fact', t[1]))
+    if t[0] == 'f':
+        return ('f', t[1], tuple(rename_apart(x) for x in t[2]))
+    return t
+
+
+def run_match(spec, acc):
+    from ..refprolog import unify_nsto, Cyclic
+    _, k, n = spec
+    U = match_universe()
+    qv = [V('X'), V('Y'), V('Z')]
+    for i1, t1 in enumerate(U):
+        if i1 % n != k:
+            continue
+        yp = impl.YP()
+        yp.assert_fact(yp.atom('m'), [impl.to_engine(yp, t1, {})])
+        f1 = rename_apart(t1)
+        for i2, t2 in enumerate(U):
+            acc.n['evaluations'] += 1
+            try:
+                env = unify_nsto(f1, t2, {})
+            except Cyclic:
+                acc.skipped['cyclic'] += 1
+                continue
+            acc.n['validated'] += 1
+            exp = [] if env is None else [canon(qv, env)]
+            vm = {}
+            arg = impl.to_engine(yp, t2, vm)
+            obs = [impl.to_engine(yp, v, vm) for v in qv]
+            label = 'store: the single fact m(%s); ' % pp(t1)
+            try:
+                got = [impl.observe(obs) for _ in yp.query('m', [arg])]
+                gotr = []
+                q = yp.query('retract', [yp.functor('m', [arg])])
+                for _ in q:
+                    gotr.append(impl.observe(obs))
+                    q.close()
+                    break
+                left = len(list(yp.query('m', [yp.variable()])))
+            except Exception as e:  # noqa: BLE001
+                acc.violation('match:raises:' + impl.exc_sig(e), (9, i1, i2), {'match': [_jm(t1), _jm(t2)]}, label + 'query / retract of m(%s) raised %r' % (pp(t2), e),
+                              key='match|%s|%s' % (pp(t1), pp(t2)))
+                yp = impl.YP()
+                yp.assert_fact(yp.atom('m'), [impl.to_engine(yp, t1, {})])
+                continue
+            acc.n['transitions'] += 3
+            bad = None
+            if got != exp:
+                bad = ('match:query-differs-from-unification', 'query m(%s) gives %r, unification of the two terms gives %r' % (pp(t2), got, exp))
+            elif gotr != exp:
+                bad = ('match:retract-differs-from-unification', 'retract(m(%s)) gives %r, unification of the two terms gives %r' % (pp(t2), gotr, exp))
+            elif left != (0 if exp else 1):
+                bad = ('match:retract-removes-wrong-number', 'after retract(m(%s)) the store holds %d fact(s)' % (pp(t2), left))
+            if bad:
+                acc.violation(bad[0], (9, i1, i2), {'match': [_jm(t1), _jm(t2)]}, label + bad[1], key='match|%s|%s' % (pp(t1), pp(t2)))
+            else:
+                acc.outcome(('match', bool(exp)))
+                if exp:
+                    acc.n['nontrivial'] += 1
+            if exp or left != 1:
+                # the fact was removed (or something else went wrong): start again from the one-fact store
+                yp = impl.YP()
+                yp.assert_fact(yp.atom('m'), [impl.to_engine(yp, t1, {})])
+
+
+def _jm(t):
+    from ..diff import _j
+    return _j(t)
+
+
 def plan(tier):
     sh = []
     if tier == 'quick':
@@ -341,6 +423,7 @@ def plan(tier):
                 n = 16 if depth >= 4 else 4
                 for k in range(n):
                     sh.append((alpha, depth, dress, ii, k, n))
+    sh += [('match', k, 32) for k in range(32)]
     return sh
 
 
@@ -350,6 +433,10 @@ def alphabet(alpha):
 
 
 def run_shard(spec):
+    if spec[0] == 'match':
+        acc = Acc()
+        run_match(spec, acc)
+        return acc
     alpha, depth, dress, ii, k, n = spec
     _keys['now'] = KEYS_RESERVED if alpha == 'reserved' else KEYS
     acc = Acc()
@@ -388,6 +475,15 @@ def run_shard(spec):
 
 
 def replay(case):
+    if 'match' in case:
+        from ..diff import _t
+        from ..refprolog import unify_nsto
+        t1, t2 = _t(case['match'][0]), _t(case['match'][1])
+        yp = impl.YP()
+        yp.assert_fact(yp.atom('m'), [impl.to_engine(yp, t1, {})])
+        env = unify_nsto(rename_apart(t1), t2, {})
+        n = len(list(yp.query('m', [impl.to_engine(yp, t2, {})])))
+        return [] if n == (0 if env is None else 1) else [('match:query-differs-from-unification', 'fact m(%s), query m(%s): %d answers' % (pp(t1), pp(t2), n))]
     _keys['now'] = KEYS_RESERVED if case.get('alpha') == 'reserved' else KEYS
     dress = case['dress']
     pytext = None if dress in ('api', HELD, DEFERRED) else impl.compile_text(show_program(script_for(dress)))
